@@ -177,17 +177,29 @@ Section Search.
   Proof.
     unfold get_project. intros path r root' H.
     destruct (os_exists root cwd path) eqn:X; simpl in H; [|discriminate].
-    fold (cfg_at path) in H. destruct (cfg_at path) eqn:C; simpl in H; [|discriminate].
+    fold (cfg_at path) in H. destruct (cfg_at path) eqn:C; simpl in H;
+      [|destruct (raise_if_older root cwd path); discriminate].
     repeat split; auto.
     destruct (locate_config_dir root cwd path) as [[d|]|e] eqn:L; try discriminate.
     apply locate_Some in L. apply project_open_Ok in H. destruct H as [-> _]. exists d. auto.
   Qed.
 
+  (* no configuration in the directory itself: never opened, nothing touched; the error is
+     LookupError unless the directory holds a legacy project (then what raise_if_older raises) *)
   Lemma get_project_nosearch_refuses : forall path,
-    cfg_at path = false -> get_project root cwd path false = (Err ELookupError, root).
+    cfg_at path = false -> raise_if_older root cwd path = None ->
+    get_project root cwd path false = (Err ELookupError, root).
+  Proof.
+    unfold get_project. intros path C O. fold (cfg_at path). rewrite C, O. simpl.
+    destruct (os_exists root cwd path); reflexivity.
+  Qed.
+
+  Lemma get_project_nosearch_never_opens : forall path,
+    cfg_at path = false -> exists e, get_project root cwd path false = (Err e, root).
   Proof.
     unfold get_project. intros path C. fold (cfg_at path). rewrite C. simpl.
-    destruct (os_exists root cwd path); reflexivity.
+    destruct (os_exists root cwd path); simpl; [|eauto].
+    destruct (raise_if_older root cwd path); eauto.
   Qed.
 
   (* completeness: an up-to-date project above an existing path IS found and opened *)
@@ -218,11 +230,12 @@ Section Search.
   Lemma get_project_no_project : forall path s,
     no_cfg_above (abspath cwd path) ->
     older_up (S (length (abspath cwd path))) root cwd (abspath cwd path) = None ->
+    raise_if_older root cwd path = None ->
     get_project root cwd path s = (Err ELookupError, root).
   Proof.
-    unfold get_project. intros path s N O.
+    unfold get_project. intros path s N O O2.
     destruct (os_exists root cwd path); simpl; [|reflexivity].
-    destruct (negb s && negb (os_isfile root cwd (cfgfn cwd path))); [reflexivity|].
+    destruct (negb s && negb (os_isfile root cwd (cfgfn cwd path))); [rewrite O2; reflexivity|].
     unfold locate_config_dir.
     destruct (loc_up (S (length (abspath cwd path))) root cwd (abspath cwd path)) eqn:E.
     - apply loc_up_sound in E. exfalso. eapply nearest_not_none; eauto.
@@ -297,7 +310,8 @@ Section Search2.
   Proof.
     unfold get_project. intros path s e root' H.
     destruct (negb (os_exists root cwd path)); [inversion H; reflexivity|].
-    destruct (negb s && negb (os_isfile root cwd (cfgfn cwd path))); [inversion H; reflexivity|].
+    destruct (negb s && negb (os_isfile root cwd (cfgfn cwd path)));
+      [destruct (raise_if_older root cwd path); inversion H; reflexivity|].
     destruct (locate_config_dir root cwd path) as [[d|]|x]; try (inversion H; reflexivity).
     eapply project_open_err_unchanged. exact H.
   Qed.
